@@ -136,6 +136,46 @@ static double gvs_x(const struct Vec *v, int n)
   return r;
 }
 
+/* ---- tagged IEEE operations (idiom of units/vyrovnani_tail, singular_coords): the real operation is performed and its result is
+   additionally NAMED by an uninterpreted function of the operands ("an IEEE operation is a function of its operands" excludes no
+   execution), so that a postcondition can name the value a/b as the TERM FDIV(a,b) instead of building a second divider circuit
+   (measured here: one `x(i)/1000 == x(i)/1000` over two circuits does not finish in 150 s on MiniSat, CaDiCaL or cvc5).
+   gv_rad2gon(a) = a*R2G and gv_gon2rad(g) = g*G2R are evaluated with the repository's own macros (pe_gen.h). */
+double __CPROVER_uninterpreted_fdiv(double, double);
+double __CPROVER_uninterpreted_fadd(double, double);
+double __CPROVER_uninterpreted_rad2gon(double);
+double __CPROVER_uninterpreted_gon2rad(double);
+#define FDIV(a, b) __CPROVER_uninterpreted_fdiv((a), (b))
+#define FADD(a, b) __CPROVER_uninterpreted_fadd((a), (b))
+#define RAD2GON(a) __CPROVER_uninterpreted_rad2gon(a)
+#define GON2RAD(a) __CPROVER_uninterpreted_gon2rad(a)
+#define SAME_BITS(a, b) (((a) == (b) && __CPROVER_signd(a) == __CPROVER_signd(b)) || ((a) != (a) && (b) != (b)))
+static double gv_fdiv(double a, double b)
+{
+  __CPROVER_assert(b != 0, "floating-point division: the divisor is not zero");
+  double r = a / b;
+  __CPROVER_assume(SAME_BITS(r, FDIV(a, b)));
+  return r;
+}
+static double gv_fadd(double a, double b)
+{
+  double r = a + b;
+  __CPROVER_assume(SAME_BITS(r, FADD(a, b)));
+  return r;
+}
+static double gv_rad2gon(double a)
+{
+  double r = a * R2G;
+  __CPROVER_assume(SAME_BITS(r, RAD2GON(a)));
+  return r;
+}
+static double gv_gon2rad(double g)
+{
+  double r = g * G2R;
+  __CPROVER_assume(SAME_BITS(r, GON2RAD(g)));
+  return r;
+}
+
 /* prototypes of extracted functions (definition order in the generated file is the unit.json order) */
 bool LocalPoint_active_xy(const struct LocalPoint *self);
 bool StandPoint_test_orientation(const struct StandPoint *self);
@@ -173,8 +213,9 @@ struct Unknown gv_u0;
 #define UPT(N, i) (&(N)->PD->e[UPID(N, i)].second)
 #define CMAX 1e9
 #define FIN(v, m) (-(m) <= (v) && (v) <= (m)) /* finite and bounded (false for NaN) */
-#define SAME_PT_BUT_XY(p, q) ((p).z_ == (q).z_ && (p).bz_ == (q).bz_ && (p).ix_ == (q).ix_ && (p).iy_ == (q).iy_ && (p).iz_ == (q).iz_ && (p).pst_ == (q).pst_)
-#define SAME_PT_BUT_Z(p, q) ((p).x_ == (q).x_ && (p).y_ == (q).y_ && (p).bxy_ == (q).bxy_ && (p).ix_ == (q).ix_ && (p).iy_ == (q).iy_ && (p).iz_ == (q).iz_ && (p).pst_ == (q).pst_)
+#define DEQ(a, b) ((a) == (b) || ((a) != (a) && (b) != (b))) /* the same number, or both not a number */
+#define SAME_PT_BUT_XY(p, q) (DEQ((p).z_, (q).z_) && (p).bz_ == (q).bz_ && (p).ix_ == (q).ix_ && (p).iy_ == (q).iy_ && (p).iz_ == (q).iz_ && (p).pst_ == (q).pst_)
+#define SAME_PT_BUT_Z(p, q) (DEQ((p).x_, (q).x_) && DEQ((p).y_, (q).y_) && (p).bxy_ == (q).bxy_ && (p).ix_ == (q).ix_ && (p).iy_ == (q).iy_ && (p).iz_ == (q).iz_ && (p).pst_ == (q).pst_)
 struct StandPoint gv_sp0; /* ghost: the stand point of unknown i before the call */
 int gv_kp;               /* ghost: an arbitrary point of the map, chosen by the harness */
 struct LocalPoint gv_p0; /* ghost: the point of unknown i before the call (recorded by the harness) */
@@ -285,17 +326,17 @@ __CPROVER_assigns(__CPROVER_object_whole(self->PD), gv_exc, gv_xreads;
                   UTYPE(self, i) == 'R': UORI(self, i)->attr_or, UORI(self, i)->test_or)
 __CPROVER_ensures(gv_exc == 0)
 /* X: both plane coordinates of the point, each from the unknown its own index names */
-__CPROVER_ensures(UTYPE(self, i) == 'X' ==> UPT(self, i)->x_ == gv_p0.x_ + XV(i) / 1000)
-__CPROVER_ensures((UTYPE(self, i) == 'X' && gv_p0.iy_ != 0) ==> UPT(self, i)->y_ == gv_p0.y_ + XV(gv_p0.iy_) / 1000)
+__CPROVER_ensures(UTYPE(self, i) == 'X' ==> UPT(self, i)->x_ == FADD(gv_p0.x_, FDIV(XV(i), 1000)))
+__CPROVER_ensures((UTYPE(self, i) == 'X' && gv_p0.iy_ != 0) ==> UPT(self, i)->y_ == FADD(gv_p0.y_, FDIV(XV(gv_p0.iy_), 1000)))
 __CPROVER_ensures((UTYPE(self, i) == 'X' && gv_p0.iy_ == 0) ==> UPT(self, i)->y_ == gv_p0.y_)
 __CPROVER_ensures(UTYPE(self, i) == 'X' ==> (UPT(self, i)->bxy_ && SAME_PT_BUT_XY(*UPT(self, i), gv_p0) && gv_xreads == (gv_p0.iy_ != 0 ? 2 : 1)))
 /* Z */
-__CPROVER_ensures(UTYPE(self, i) == 'Z' ==> (UPT(self, i)->z_ == gv_p0.z_ + XV(i) / 1000 && UPT(self, i)->bz_ && SAME_PT_BUT_Z(*UPT(self, i), gv_p0) && gv_xreads == 1))
-/* R: gon = rad * R2G, + cc/10000, back to radians */
-__CPROVER_ensures(UTYPE(self, i) == 'R' ==> (UORI(self, i)->attr_or == (gv_sp0.attr_or * R2G + XV(i) / 10000) * G2R && UORI(self, i)->test_or && gv_xreads == 1))
+__CPROVER_ensures(UTYPE(self, i) == 'Z' ==> (UPT(self, i)->z_ == FADD(gv_p0.z_, FDIV(XV(i), 1000)) && UPT(self, i)->bz_ && SAME_PT_BUT_Z(*UPT(self, i), gv_p0) && gv_xreads == 1))
+/* R: gon = rad * R2G, + cc/10000, back to radians = gon * G2R.  (FDIV, RAD2GON, GON2RAD: the IEEE results, named) */
+__CPROVER_ensures(UTYPE(self, i) == 'R' ==> (UORI(self, i)->attr_or == GON2RAD(FADD(RAD2GON(gv_sp0.attr_or), FDIV(XV(i), 10000))) && UORI(self, i)->test_or && gv_xreads == 1))
 /* nothing else moves: every other point (chosen by the harness: gv_kp) keeps every field; Y and unused entries change nothing */
 __CPROVER_ensures((0 <= gv_kp && gv_kp < NPTS && !((UTYPE(self, i) == 'X' || UTYPE(self, i) == 'Z') && gv_kp == UPID(self, i))) ==>
-                  (self->PD->e[gv_kp].second.x_ == gv_pd0.e[gv_kp].second.x_ && self->PD->e[gv_kp].second.y_ == gv_pd0.e[gv_kp].second.y_ &&
+                  (DEQ(self->PD->e[gv_kp].second.x_, gv_pd0.e[gv_kp].second.x_) && DEQ(self->PD->e[gv_kp].second.y_, gv_pd0.e[gv_kp].second.y_) &&
                    self->PD->e[gv_kp].second.bxy_ == gv_pd0.e[gv_kp].second.bxy_ && SAME_PT_BUT_XY(self->PD->e[gv_kp].second, gv_pd0.e[gv_kp].second)))
 __CPROVER_ensures((UTYPE(self, i) != 'X' && UTYPE(self, i) != 'Z' && UTYPE(self, i) != 'R') ==> gv_xreads == 0)
 //@ entry LocalNetwork_refine_unknown
